@@ -525,6 +525,40 @@ class Randomizer(RandIF):
 
     
     @staticmethod
+    def _lock_unpassed_fields(field_model_l, constraint_l):
+        roots = field_model_l
+        
+        def in_call(f):
+            while f is not None:
+                for r in roots:
+                    if f is r:
+                        return True
+                f = getattr(f, "parent", None)
+            return False
+        
+        class RefVisitor(ModelVisitor):
+            
+            def __init__(self):
+                super().__init__()
+            
+            def lock(self, fm):
+                if isinstance(fm, FieldScalarModel) and not in_call(fm):
+                    fm.set_used_rand(False)
+                    
+            def visit_expr_fieldref(self, e):
+                self.lock(e.fm)
+                
+            def visit_expr_indexed_fieldref(self, e):
+                try:
+                    self.lock(e.get_target())
+                except Exception:
+                    pass
+                
+        v = RefVisitor()
+        for c in constraint_l:
+            c.accept(v)
+    
+    @staticmethod
     def do_randomize(
             randstate,
             srcinfo : SourceInfo,
@@ -561,6 +595,13 @@ class Randomizer(RandIF):
             
         for c in constraint_l:
             clear_soft_priority.clear(c)
+            
+        # A field that is only referenced by the call's constraints, and is
+        # not part of what is being randomized, acts as a constant. Without
+        # this, such a field would still be random if it was declared random 
+        # and had not been randomized (and thereby locked) before
+        if len(constraint_l) > 0:
+            Randomizer._lock_unpassed_fields(field_model_l, constraint_l)
 
         # Collect all variables (pre-array) and establish bounds            
         bounds_v = VariableBoundVisitor()
